@@ -192,7 +192,7 @@ class Engine:
                 rec.resume_no = self.resumes_in_wait
                 if rec.pre_state == 'waiting':
                     self.resumes_in_wait += 1
-                rec.result = proc.resume([rec.wait_no, rec.resume_no])
+                rec.result = proc.resume(['rv', rec.wait_no, rec.resume_no])
             elif kind == 'fail':
                 exc = programs.ProgramError(action.get('msg', 'env-fail'))
                 self.world.program_errors.append(exc)
@@ -278,13 +278,28 @@ class Engine:
         for _ in range(max_rounds):
             self.run_to_quiescence()
             if proc.has_terminated():
-                if proc.paused:
+                if proc.paused and self.opts.get('final_play', False):
                     # "each run is completed by a final play", also one that terminated while a pause took effect
                     self.extra_action({'act': 'play'})
                     self.run_to_quiescence()
                 return 'terminated'
             if proc.paused:
                 self.extra_action({'act': 'play'})
+            elif proc.state.value == 'waiting' and self.case['program'].get('kind') == 'workchain':
+                pending = sorted(k for k, f in self.world.futures.items() if not f.done())
+                live_children = [c for c in self.world.children if not c.has_terminated()]
+                if pending:
+                    self.extra_action({'act': 'complete', 'fut': pending[0], 'how': 'value', 'v': f'v{pending[0]}'})
+                elif live_children:
+                    child = live_children[0]
+                    if child.paused:
+                        child.play()
+                    elif child.state.value == 'waiting':
+                        child.resume(['child', 0])
+                    else:
+                        return 'stuck:child'
+                else:
+                    return 'lost_wakeup'
             elif proc.state.value == 'waiting':
                 if self.resumes_in_wait > 0:
                     return 'lost_wakeup'
